@@ -31,6 +31,7 @@ import (
 
 	kit "github.com/openbao/openbao/sdk/v2/helper/verifkit"
 	"github.com/openbao/openbao/sdk/v2/logical"
+	"github.com/openbao/openbao/sdk/v2/physical"
 	"github.com/openbao/openbao/v2/internal/helper/namespace"
 	"github.com/openbao/openbao/v2/internal/vault/barrier"
 )
@@ -94,7 +95,12 @@ func (e *c05Env) setRetryBase(v *vCore, base time.Duration) {
 
 // c05Boot builds a core with namespaces ns1/, ns1/ns2/ (plain) and optionally sns/ (own shamir seal).
 func c05Boot(t *testing.T, tx bool, sealable bool, retryBase time.Duration) *c05Env {
-	v := vBoot(t, vOpts{Transactional: tx,
+	return c05BootOn(t, tx, nil, sealable, retryBase)
+}
+
+// c05BootOn: like c05Boot, on the given (empty) store when phys is not nil; phys must come from kit.NewProbe.
+func c05BootOn(t *testing.T, tx bool, phys physical.Backend, sealable bool, retryBase time.Duration) *c05Env {
+	v := vBoot(t, vOpts{Transactional: tx, Phys: phys,
 		Logical:    map[string]logical.Factory{"c05rb": c05RBFactory(logical.TypeLogical)},
 		Credential: map[string]logical.Factory{"c05rb": c05RBFactory(logical.TypeCredential)}})
 	e := &c05Env{t: t, v: v, tx: tx}
@@ -478,11 +484,16 @@ func c05TokenLeaseID(v *vCore, nsPath, tokenID string) (string, error) {
 // ------------------------------------------------------------------ O1 at the API
 
 type c05Step struct {
-	Wait    time.Duration `json:"wait"`
-	Inc     time.Duration `json:"increment"`
-	Tune    bool          `json:"tune,omitempty"`
-	NewMax  time.Duration `json:"new_mount_max,omitempty"`
-	Outcome string        `json:"outcome,omitempty"`
+	Wait   time.Duration `json:"wait"`
+	Inc    time.Duration `json:"increment"`
+	Tune   bool          `json:"tune,omitempty"`
+	NewMax time.Duration `json:"new_mount_max,omitempty"`
+	// RoleOp (token-role kinds): what happens to the token's role before this renewal:
+	// delete | raise-max | lower-max | remove-max | change-period | recreate; the role's values afterwards:
+	RoleOp        string        `json:"role_op,omitempty"`
+	NewRoleXMax   time.Duration `json:"new_role_explicit_max,omitempty"`
+	NewRolePeriod time.Duration `json:"new_role_period,omitempty"`
+	Outcome       string        `json:"outcome,omitempty"`
 }
 
 type c05Spec struct {
@@ -513,6 +524,9 @@ func (sp *c05Spec) describe() {
 		t := fmt.Sprintf("wait %s renew +%s", x.Wait, x.Inc)
 		if x.Tune {
 			t = fmt.Sprintf("wait %s tune mount max=%s renew +%s", x.Wait, x.NewMax, x.Inc)
+		}
+		if x.RoleOp != "" {
+			t = fmt.Sprintf("wait %s role %s (role explicit max=%s period=%s afterwards) renew +%s", x.Wait, x.RoleOp, x.NewRoleXMax, x.NewRolePeriod, x.Inc)
 		}
 		st = append(st, t)
 	}
@@ -696,6 +710,8 @@ func (e *c05Env) runBoundCase(r *kit.Result, w *c05Worker, caseID string, sp c05
 	}
 	period := sp.Period
 	renewableExpected := sp.Renewable
+	// token-role kinds: the last mutation of the role since the token was issued
+	roleChanged, roleDeleted, curRolePeriod := "", false, sp.RolePeriod
 
 	// ---- issue
 	var resp *logical.Response
@@ -818,7 +834,12 @@ func (e *c05Env) runBoundCase(r *kit.Result, w *c05Worker, caseID string, sp c05
 		if period > 0 {
 			class = "C05-periodic-expiry-past-period-or-explicit-max"
 		}
-		roleSig := sp.Kind == "token-role" && sp.XMax > 0 && (sp.RoleXMax == 0 || sp.RoleXMax > sp.XMax) && stage != "issue" && l.xmax == sp.XMax
+		if roleChanged != "" && strings.HasPrefix(stage, "renewal") {
+			// narrow signature: token issued through a role, the role was deleted / rewritten since, and a later renewal
+			// carried the token past the bound it was issued with (explicit max encoded at issue; period as the role has it now)
+			class = "C05-role-token-renewed-past-explicit-max-after-role-" + roleChanged
+		}
+		roleSig := roleChanged == "" && sp.Kind == "token-role" && sp.XMax > 0 && (sp.RoleXMax == 0 || sp.RoleXMax > sp.XMax) && stage != "issue" && l.xmax == sp.XMax
 		for _, o := range []struct {
 			name string
 			t    time.Time
@@ -858,6 +879,24 @@ func (e *c05Env) runBoundCase(r *kit.Result, w *c05Worker, caseID string, sp c05
 	// ---- renew sequence
 	for si, st := range sp.Steps {
 		time.Sleep(st.Wait)
+		if st.RoleOp != "" && sp.Kind == "token-role" {
+			rolePath := "auth/token/roles/" + w.role
+			var oresp *logical.Response
+			var oerr error
+			if st.RoleOp == "delete" || st.RoleOp == "recreate" {
+				oresp, oerr = v.Do(vReq{Op: logical.DeleteOperation, Path: rolePath, Token: v.Root, NS: sp.NS})
+			}
+			if vOK(oresp, oerr) && st.RoleOp != "delete" {
+				oresp, oerr = v.Do(vReq{Op: logical.UpdateOperation, Path: rolePath, Token: v.Root, NS: sp.NS,
+					Data: map[string]any{"allowed_policies": "default", "renewable": true, "token_explicit_max_ttl": c05Secs(st.NewRoleXMax), "token_period": c05Secs(st.NewRolePeriod)}})
+			}
+			if !vOK(oresp, oerr) {
+				r.Inconc("%s: role %s failed: %s", caseID, st.RoleOp, vErrStr(oresp, oerr))
+				return
+			}
+			roleChanged, roleDeleted, curRolePeriod = st.RoleOp, st.RoleOp == "delete", st.NewRolePeriod
+			r.Count("role_changed_between_grants:"+st.RoleOp, 1)
+		}
 		if st.Tune && ownMount {
 			def := sp.MountDef
 			if st.NewMax > 0 && def > st.NewMax {
@@ -890,6 +929,9 @@ func (e *c05Env) runBoundCase(r *kit.Result, w *c05Worker, caseID string, sp c05
 		if !ok {
 			st.Outcome = "refused: " + vErrStr(rresp, rerr)
 			r.Count("renewals_refused", 1)
+			if roleChanged != "" {
+				r.Count("renewals_refused_after_role_"+roleChanged, 1)
+			}
 			switch {
 			case !renewableExpected:
 				r.Count("nonrenewable_renewal_refused", 1)
@@ -923,8 +965,11 @@ func (e *c05Env) runBoundCase(r *kit.Result, w *c05Worker, caseID string, sp c05
 			r.Violate("C05-expired-lease-renewed"+batchSig, caseID, fmt.Sprintf("%s [%s]: the stored expiry %s had passed before the renewal was sent, yet it was granted %s", stage, caseID, storedBefore.Format(time.RFC3339Nano), gttl), wit(stage))
 			return
 		}
-		if sp.Kind == "token-role" {
-			period = sp.RolePeriod // documented: the role's current period is used at renewal time
+		if sp.Kind == "token-role" && !roleDeleted {
+			period = curRolePeriod // documented: the role's current period is used at renewal time
+		}
+		if roleChanged != "" {
+			r.Count("renewals_granted_after_role_"+roleChanged, 1)
 		}
 		if sp.RenewMode == "fresh-ttl" {
 			l.bmax = 0 // the renewal answer states no backend max: only mount / system / explicit max bind from here on
